@@ -841,5 +841,79 @@ def rule_j(repo, chk):
     chk.floor('C01.j', k, 8, '(children taken by position and inferred)')
 
 
+TRIAGED_OWN_NULLABLE = {
+    ('jedi.api', 'Script.get_context', 'definition', 'parent'):
+        'the climb stops at type == \'module\' (loop condition) and every definition on the way is the value name of a class/function '
+        'context, for which parent() has a context to answer with (C18.b/c)',
+    ('jedi.inference.dynamic_params', '_search_function_arguments', 'cls', 'get_parent_scope'):
+        'get_parent_scope() answers None only for the file_input node itself; its argument here is a funcdef',
+}
+
+
+def _own_nullable_functions(repo):
+    """functions of the package (not generators) that return None on some path and something else on another, keyed by simple name when
+    that name is unique among them: name -> (module, qual, positions) with positions = {None} for the whole value and/or tuple indices
+    that are the constant None in some return"""
+    found = {}
+    for m in repo.modules.values():
+        for q, f in m.defs.items():
+            if not isinstance(f, FUNC_TYPES):
+                continue
+            if any(isinstance(x, (ast.Yield, ast.YieldFrom)) for x in own_nodes(f)):
+                continue
+            pos, other = set(), False
+            for r in stmts_in(f, ast.Return):
+                v = r.value
+                if v is None or (isinstance(v, ast.Constant) and v.value is None):
+                    pos.add(None)
+                elif isinstance(v, ast.Tuple):
+                    other = True
+                    for i_, e in enumerate(v.elts):
+                        if isinstance(e, ast.Constant) and e.value is None:
+                            pos.add(i_)
+                else:
+                    other = True
+            if pos and other:
+                found.setdefault(f.name, []).append((m.name, q, pos))
+    return {k: v[0] for k, v in found.items() if len(v) == 1}
+
+
+def rule_k(repo, chk):
+    chk.clause('C01.k', 'the None rule for jedi\'s own functions: a function of the package that returns None on one path and a value on another '
+                        '(derived on every run; also per tuple position: `return None, False`) has its result dereferenced only under a '
+                        'dominating None test, package-wide (or the site is triaged with the reason None is impossible there)')
+    own = _own_nullable_functions(repo)
+    chk.floor('C01.k', len(own), 30, '(nullable functions with a unique name)')
+    n = 0
+    for m in sorted(repo.modules.values(), key=lambda m: m.name):
+        for q, f in sorted(m.defs.items()):
+            if not isinstance(f, FUNC_TYPES):
+                continue
+            for a in stmts_in(f, ast.Assign):
+                if not isinstance(a.value, ast.Call):
+                    continue
+                cn = call_name(a.value)
+                if cn not in own:
+                    continue
+                _, qq, pos = own[cn]
+                t = a.targets[0]
+                vars_ = []
+                if isinstance(t, ast.Name) and None in pos:
+                    vars_ = [t.id]
+                elif isinstance(t, ast.Tuple):
+                    vars_ = [e.id for i_, e in enumerate(t.elts) if i_ in pos and isinstance(e, ast.Name)]
+                for v in vars_:
+                    for u in derefs_of(f, v):
+                        n += 1
+                        tk = (m.name, q, v, cn)
+                        if tk in TRIAGED_OWN_NULLABLE:
+                            chk.ob('C01.k', True, u, '`%s` (from %s()) cannot be None here: %s' % (short(u, 40), cn, TRIAGED_OWN_NULLABLE[tk]))
+                            continue
+                        w = none_safe(f, u, v, def_stmt=a)
+                        chk.ob('C01.k', w is None, u, '`%s`: the result of %s() (None on some path of %s) is dereferenced under a None test' % (short(u, 40), cn, qq),
+                               'path without a test: %s' % w if w else '', key='own-nullable|%s:%s|%s|%s' % (m.name, q, cn, norm(u)))
+    chk.floor('C01.k', n, 30, '(dereferences of results of nullable package functions)')
+
+
 RULES = [('C01.a', rule_a), ('C01.b', rule_b), ('C01.c', rule_c), ('C01.d', rule_d), ('C01.e', rule_e), ('C01.f', rule_f),
-         ('C01.g', rule_g), ('C01.h', rule_h), ('C01.i', rule_i), ('C01.j', rule_j)]
+         ('C01.g', rule_g), ('C01.h', rule_h), ('C01.i', rule_i), ('C01.j', rule_j), ('C01.k', rule_k)]
